@@ -62,6 +62,21 @@ FACTS = {
         ('undeclared_subtree_cleared', 'elementpath/xpath_nodes.py', 'EtreeElementNode.apply_schema', 'order', 'if xsd_type is None: ;; node.clear_types()'),
         ('children_walked_with_child_type', 'elementpath/xpath_nodes.py', 'EtreeElementNode.apply_schema', 'order', 'xsd_types.append(xsd_type) ;; iterators.append(children) ;; children = iter(node)'),
     ],
+    'C13': [
+        ('add_insert_before', 'elementpath/regex/unicode_subsets.py', 'UnicodeSubset.add', 'order', 'if end_cp < cp0: ;; code_points.insert(k, value) ;; elif start_cp > cp1: ;; continue ;; elif end_cp > cp1:'),
+        ('add_extend_to_next', 'elementpath/regex/unicode_subsets.py', 'UnicodeSubset.add', 'order', 'if end_cp <= higher_bound: ;; code_points[k] = (min(cp0, start_cp), end_cp) ;; code_points[k] = (min(cp0, start_cp), higher_bound) ;; start_cp = higher_bound ;; continue'),
+        ('add_extend_left', 'elementpath/regex/unicode_subsets.py', 'UnicodeSubset.add', 'order', 'elif start_cp < cp0: ;; code_points[k] = (start_cp, cp1) ;; break ;; self._codepoints.append(value)'),
+        ('add_last_item', 'elementpath/regex/unicode_subsets.py', 'UnicodeSubset.add', 'order', 'if k == last_index: ;; code_points[k] = (min(cp0, start_cp), end_cp)'),
+        ('discard_from_the_end', 'elementpath/regex/unicode_subsets.py', 'UnicodeSubset.discard', 'order', 'for k in reversed(range(len(codepoints))): ;; if start_cp >= cp1: ;; break'),
+        ('discard_tail', 'elementpath/regex/unicode_subsets.py', 'UnicodeSubset.discard', 'order', 'elif end_cp >= cp1: ;; if start_cp <= cp0: ;; del codepoints[k] ;; elif start_cp - cp0 > 1: ;; codepoints[k] = (cp0, start_cp) ;; codepoints[k] = cp0'),
+        ('discard_head_or_middle', 'elementpath/regex/unicode_subsets.py', 'UnicodeSubset.discard', 'order', 'elif end_cp > cp0: ;; if start_cp <= cp0: ;; codepoints[k] = (end_cp, cp1) ;; codepoints[k] = cp1 - 1 ;; codepoints.insert(k + 1, (end_cp, cp1)) ;; codepoints.insert(k + 1, cp1 - 1)'),
+    ],
+    'C19': [
+        ('enter_acquires_then_saves', 'elementpath/collations.py', 'CollationManager.__enter__', 'order', '_locale_collate_lock.acquire() ;; self._current_lc_collate = locale.getlocale(locale.LC_COLLATE) ;; locale.setlocale(locale.LC_COLLATE, self.lc_collate)'),
+        ('enter_fallback', 'elementpath/collations.py', 'CollationManager.__enter__', 'order', "except locale.Error: ;; if not self.fallback: ;; raise ;; locale.setlocale(locale.LC_COLLATE, 'en_US.UTF-8')"),
+        ('enter_failure_releases', 'elementpath/collations.py', 'CollationManager.__enter__', 'order', 'except locale.Error: ;; self._current_lc_collate = None ;; _locale_collate_lock.release() ;; raise xpath_error('),
+        ('exit_restores_and_releases', 'elementpath/collations.py', 'CollationManager.__exit__', 'order', 'if self._current_lc_collate is not None: ;; locale.setlocale(locale.LC_COLLATE, self._current_lc_collate) ;; self._current_lc_collate = None ;; _locale_collate_lock.release()'),
+    ],
     'C10': [
         ('integer_checks_lexical', 'elementpath/datatypes/numeric.py', 'Integer.__new__', 'order', 'value = collapse_white_spaces(value) ;; if cls.pattern.match(value) is None:'),
         ('integer_lower_bound_inclusive', 'elementpath/datatypes/numeric.py', 'Integer.__init__', 'has', 'self < self._lower_bound'),
